@@ -571,6 +571,7 @@ class World:
         for bn, b in self.buses.items():
             buses[bn] = dict(q=b.event_queue.qsize() if b.event_queue is not None else None,
                              hist=[(self.by_id.get(i, i[-6:]), ev.event_status) for i, ev in b.event_history.items()],
+                             queue=[self.name_of(x) for x in list(getattr(b.event_queue, '_queue', []) or [])] if b.event_queue is not None else [],
                              running=bool(b._is_running), nhandlers={k: len(v) for k, v in b.handlers.items() if v})
         return dict(events=evs, buses=buses)
 
